@@ -167,7 +167,7 @@ class Builder:
                     for attr, t in self.job.get("class_fields", {}).get(k.__name__, {}).items():
                         if attr in o.__dict__ and not (c.__name__ in self.job.get("construct", []) and f"{name}.{attr}" in values):
                             continue
-                        if str(t).startswith("obj") or c.__name__ in self.job.get("construct", []) or attr.startswith("g_"):
+                        if True:
                             try:
                                 self.setattr_raw(o, attr, self.make(t, f"{name}.{attr}", values, depth + 1))
                             except Exception:
